@@ -13,7 +13,8 @@ import sa.program as program_mod
 EXPLANATION = (
     "Static rules over pyiga/vform.py, compile.py, codegen/cython.py, scripts/generate-assemblers.py and the shipped generated "
     "sources: (R13.1) hash-key completeness of every expression class (shared with C06: every identifying attribute, in particular "
-    "every attribute the generator reads, is hashed); (R13.2) VForm.hash covers every configuration attribute of VForm / BasisFun / "
+    "every attribute the generator reads, reaches the key through injective operations, and every combiner of child hashes keeps "
+    "the operands positional); (R13.2) VForm.hash covers every configuration attribute of VForm / BasisFun / "
     "InputField / Parameter / AsmVar that the generator reads, directly or through a frozen derivation; (R13.3) every parameter of "
     "compile_vform that reaches generate() is part of the in-process cache key and seeding uses the same key constructor; (R13.4) the "
     "on-disk module name is a digest of exactly the source string that is written; (R13.5) the (form constructor, class name) pairs "
